@@ -150,6 +150,18 @@ func (self *Interpreter) forStatement(node ast.AnalyzedForStatement) *value.Inte
 		return i
 	}
 
+	// A `for` loop iterates over a snapshot of a list: mutating the list in the body
+	// must not change the iteration (the VM clones the iterable as well)
+	if (*iterVal).Kind() == value.ListValueKind {
+		original := *(*iterVal).(value.ValueList).Values
+		snapshot := make([]*value.Value, len(original))
+		for idx, elem := range original {
+			elemCopy := *elem
+			snapshot[idx] = &elemCopy
+		}
+		iterVal = value.NewValueList(snapshot)
+	}
+
 	iterator := (*iterVal).IntoIter()
 
 	// add a new scope for the loop
